@@ -569,9 +569,30 @@ func NextGuard(c *core.Ctx, rule string, pkgs []*packages.Package) {
 				ninfo = c.ByPath[m.Pkg().Path()].TypesInfo
 			}
 		}
+		// a refill call that is the right operand of || is skipped whenever the left operand holds
+		skipped := map[ast.Node]bool{}
+		ast.Inspect(nx.body, func(x ast.Node) bool {
+			if be, ok := x.(*ast.BinaryExpr); ok && be.Op == token.LOR {
+				ast.Inspect(be.Y, func(y ast.Node) bool {
+					if call, ok := y.(*ast.CallExpr); ok {
+						skipped[call] = true
+					}
+					return true
+				})
+			}
+			return true
+		})
+		sawSkipped := false
 		callsRefill := nodeContains(nx.body, false, func(x ast.Node) bool {
 			call, ok := x.(*ast.CallExpr)
 			if !ok {
+				return false
+			}
+			if skipped[call] {
+				o := objOf(ninfo, call.Fun)
+				if o != nil && ((h.obj != nil && o == h.obj) || helpers[o]) {
+					sawSkipped = true
+				}
 				return false
 			}
 			o := objOf(ninfo, call.Fun)
@@ -587,6 +608,8 @@ func NextGuard(c *core.Ctx, rule string, pkgs []*packages.Package) {
 		})
 		if callsRefill {
 			c.Add(rule, key, s.call.Pos(), core.Discharged, "next re-establishes the look-ahead through hasNext / its refill helper")
+		} else if sawSkipped {
+			c.Add(rule, key, s.call.Pos(), core.Violated, "next calls hasNext only as the right operand of ||: whenever the left operand holds the look-ahead is not re-established, and the element is taken from stale state (an exhausted inner cursor panics, or an element is delivered twice) when Next is not preceded by HasNext")
 		} else {
 			c.Add(rule, key, s.call.Pos(), core.Violated, "hasNext fills look-ahead state but next neither calls it nor its refill helper: a Next that is not immediately preceded by HasNext (or that follows exhaustion) returns a stale cached element instead of the next one / instead of panicking")
 		}
